@@ -7,6 +7,7 @@ import (
 	"os"
 	"os/exec"
 	"path/filepath"
+	"regexp"
 	"strings"
 	"sync"
 	"time"
@@ -18,6 +19,9 @@ type solverSpec struct {
 }
 
 var solvers = []solverSpec{
+	{"z3-5.1.0-ematch", func(f string, t int) []string {
+		return []string{"z3-new", "-smt2", fmt.Sprintf("-T:%d", t), "smt.mbqi=false", "smt.auto_config=false", f}
+	}},
 	{"z3-5.1.0", func(f string, t int) []string { return []string{"z3-new", "-smt2", fmt.Sprintf("-T:%d", t), f} }},
 	{"z3-4.8.12", func(f string, t int) []string { return []string{"z3", "-smt2", fmt.Sprintf("-T:%d", t), f} }},
 	{"cvc5-1.0", func(f string, t int) []string {
@@ -55,7 +59,36 @@ func (x *Exec) query(o *Obligation, wantModel bool) string {
 	if wantModel {
 		b.WriteString("(get-model)\n")
 	}
-	return b.String()
+	return fixConstArrays(b.String())
+}
+
+var constArrRe = regexp.MustCompile(`\(\(as const (\(Array [A-Za-z]+ (Str|Err|Any)\))\) (str\.empty|err\.nil|any\.nil)\)`)
+
+// fixConstArrays replaces constant arrays whose default is an uninterpreted constant (not an SMT value,
+// rejected by cvc5) by a declared array with a defining axiom.
+func fixConstArrays(q string) string {
+	names := map[string]string{}
+	var decls []string
+	out := constArrRe.ReplaceAllStringFunc(q, func(m string) string {
+		if n, ok := names[m]; ok {
+			return n
+		}
+		sm := constArrRe.FindStringSubmatch(m)
+		n := fmt.Sprintf("zarr!%d", len(names))
+		names[m] = n
+		ks := strings.Fields(strings.Trim(sm[1], "()"))[1]
+		decls = append(decls, fmt.Sprintf("(declare-fun %s () %s)\n(assert (forall ((i %s)) (! (= (select %s i) %s) :pattern ((select %s i)))))\n", n, sm[1], ks, n, sm[3], n))
+		return n
+	})
+	if len(decls) == 0 {
+		return q
+	}
+	// insert after the sort/constant prelude: before the first (assert
+	i := strings.Index(out, "(assert")
+	if i < 0 {
+		return out
+	}
+	return out[:i] + strings.Join(decls, "") + out[i:]
 }
 
 func runSolver(ctx context.Context, sp solverSpec, file string, timeoutS int) (string, string, time.Duration) {
